@@ -279,9 +279,21 @@ func checkC12(c *Ctx, r *Report) {
 	// ---- R3: every membership change made by the sweep reaches the rebalance trigger
 	r.rule("C12.R3", "a member removed by the expiry / lagger sweep is always reported (so that cleanupGroups starts a rebalance and the member's partitions are reassigned)", 2)
 	sweepDels := map[*ssa.Function][]ssa.Instruction{}
+	isSweep := func(f *ssa.Function) bool {
+		return funcName(f) == gstate+"removeExpiredMembers" || funcName(f) == gstate+"dropRebalanceLaggers"
+	}
 	for _, w := range fieldWriters(m, tGroupState, "members", true) {
-		if w.Kind == "delete" && (funcName(w.Fn) == gstate+"removeExpiredMembers" || funcName(w.Fn) == gstate+"dropRebalanceLaggers") {
-			sweepDels[w.Fn] = append(sweepDels[w.Fn], w.In)
+		if w.Kind != "delete" {
+			continue
+		}
+		// a delete inside a helper that only the sweeps (and other allowed removers) call is judged at
+		// the helper's call site in the sweep
+		for _, site := range liftToRoots(m, w.In, func(f *ssa.Function) bool {
+			return isSweep(f) || funcName(f) == coord+"LeaveGroup"
+		}) {
+			if isSweep(site.Parent()) {
+				sweepDels[site.Parent()] = append(sweepDels[site.Parent()], site)
+			}
 		}
 	}
 	for fn, ds := range sweepDels {
@@ -649,7 +661,7 @@ func checkC14(c *Ctx, r *Report) {
 	}
 
 	// ---- R5
-	r.rule("C14.R5", "after delete(members, k) every path to return clears/re-elects the leader (store to leaderID, ensureLeader()), has checked leaderID != k, or deletes the whole group; startRebalance re-validates the leader unconditionally", 4)
+	r.rule("C14.R5", "after delete(members, k) every path to return clears/re-elects the leader (store to leaderID, ensureLeader()), has checked leaderID != k, or deletes the whole group; startRebalance re-validates the leader unconditionally", 2)
 	checkLeaderAfterDelete(m, r, "C14.R5")
 
 	// ---- R4
@@ -702,9 +714,20 @@ func checkC43(c *Ctx, r *Report) {
 	r.rule("C43.R3", "lastHeartbeat refreshed before every NONE heartbeat reply and on every JoinGroup", 2)
 
 	dels := map[string][]ssa.Instruction{}
+	removers := map[string]bool{gstate + "removeExpiredMembers": true, gstate + "dropRebalanceLaggers": true, coord + "LeaveGroup": true}
 	for _, w := range fieldWriters(m, tGroupState, "members", true) {
-		if w.Kind == "delete" {
+		if w.Kind != "delete" {
+			continue
+		}
+		// a delete inside a helper that only the three removers call is judged at the helper's call
+		// site in the remover (extracting the removal into a function adds no new remover)
+		lifted := liftToRoots(m, w.In, func(f *ssa.Function) bool { return removers[funcName(f)] })
+		if lifted == nil {
 			dels[funcName(w.Fn)] = append(dels[funcName(w.Fn)], w.In)
+			continue
+		}
+		for _, site := range lifted {
+			dels[funcName(site.Parent())] = append(dels[funcName(site.Parent())], site)
 		}
 	}
 	allowed := map[string]Guard{
@@ -735,7 +758,10 @@ func checkC43(c *Ctx, r *Report) {
 			guardVerdict(m, r, "C43.R1", "delete(members) in "+fnName+" under its guard", in.Parent(), in, g)
 			if fnName == coord+"LeaveGroup" {
 				call := in.(*ssa.Call)
-				if _, f, _, okf := fieldOf(call.Call.Args[1]); !okf || f != "MemberID" {
+				if len(call.Call.Args) < 2 {
+					continue
+				}
+				if _, f, _, okf := fieldOf(call.Call.Args[len(call.Call.Args)-1]); !okf || f != "MemberID" {
 					r.viol("C43.R1", "LeaveGroup deletes the caller's own id", m.Pos(in.Pos()), "deleted key is "+describe(call.Call.Args[1]))
 				}
 			}
